@@ -144,7 +144,7 @@ PROPS["C01"] = dict(
     level_note="Trusted: Coq kernel + vm_compute; X.509 verdicts (server chain under the client's roots/name, client chain under the policy's options, issuer acceptability) are oracle inputs "
                "computed by the harness; Clone is checked by running through it (a dropped field shows as a disagreement).",
     code_names={1: "one-side-succeeded-other-failed", 2: "success-differs-from-compatibility", 3: "suite-not-first-common-in-priority-order", 4: "sides-report-different-parameters",
-                5: "peer-certificates-not-what-the-other-presented", 6: "data-not-delivered-unchanged", 7: "alpn-not-per-specification"},
+                5: "peer-certificates-not-what-the-other-presented", 6: "data-not-delivered-unchanged", 7: "alpn-not-per-specification", 8: "resumed-on-a-suite-not-the-sessions-or-no-longer-enabled"},
     assumptions=["reliable transport; both endpoints unmodified"],
     trusted=["smx509.Verify as oracle", "tk in-memory transports / virtual-time network"],
 )
